@@ -106,6 +106,15 @@ func getAliasDependency(charts []*chart.Chart, dep *chart.Dependency) *chart.Cha
 
 		out := *c
 		md := *c.Metadata
+		// every use of the chart gets its own dependency records: they are
+		// renamed (alias) and flagged (Enabled) per use
+		md.Dependencies = make([]*chart.Dependency, len(c.Metadata.Dependencies))
+		for i, d := range c.Metadata.Dependencies {
+			if d != nil {
+				dd := *d
+				md.Dependencies[i] = &dd
+			}
+		}
 		out.Metadata = &md
 
 		if dep.Alias != "" {
